@@ -139,6 +139,12 @@ FwdExact(S, S2, D) ==
        Cardinality({nd \in ND : nd[1] = d[1] /\ nd[2] = x})
          = Cardinality({d2 \in D : d2[1] = d[1] /\ x \in FwdSubs(S, d2)})
 FwdFresh(S, S2, t0, t1) == \A nd \in NewDels(S, S2) : FreshDel(S, S2, nd, t0, t1)
+\* C14: the forwarded copy is retained for the DEAD-LETTER subscription's retention counted from
+\* the forwarding, and honours that subscription's delivery delay
+FwdRetention(S, S2, t0, t1) ==
+  Chk("C14:forward-retention",
+      \A nd \in NewDels(S, S2) : nd[2] \in DOMAIN S.subs =>
+         In(S2.del[nd].exp, t0 + S.subs[nd[2]].mttl, t1 + S.subs[nd[2]].mttl))
 
 RestSame(S, S2, fields) == \A f \in fields : S2[f] = S[f]
 AllFields == {"topics", "subs", "msgs", "del", "snaps"}
@@ -376,6 +382,7 @@ VPull(S, e, S2) ==
         \A d \in D : DLable(S, d) /\ MayElig(S, d, e.t0, e.t1) /\ OnlyDone(S, S2, d))
     \cup Chk("C06:forward-exactly-once", FwdExact(S, S2, D))
     \cup Chk("C06:forward-fresh", FwdFresh(S, S2, e.t0, e.t1))
+    \cup FwdRetention(S, S2, e.t0, e.t1)
     \cup Chk("C01:pull-progress", must # {} => (R \cup D) # {})
     \cup Chk("C14:pull-restarts-expiry",
         /\ SubsSameExcept(S, S2, {s})
@@ -464,6 +471,7 @@ VNack(S, e, S2) ==
                 In(S2.del[d].at, e.t0 + e.bo[pos(d)], e.t1 + e.bo[pos(d)] + Jit))
     \cup Chk("C06:forward-exactly-once", FwdExact(S, S2, D))
     \cup Chk("C06:forward-fresh", FwdFresh(S, S2, e.t0, e.t1))
+    \cup FwdRetention(S, S2, e.t0, e.t1)
     \cup Chk("C04:nack-side-effect", \A d \in Dels(S) \ ids : SameDel(S, S2, d))
     \cup Chk("C04:nack-frame", RestSame(S, S2, {"topics", "subs", "msgs", "snaps"}))
 
@@ -604,6 +612,7 @@ VDLSweep(S, e, S2) ==
     \cup Chk("C06:sweep-progress", must # {} => D # {})
     \cup Chk("C06:forward-exactly-once", FwdExact(S, S2, D))
     \cup Chk("C06:forward-fresh", FwdFresh(S, S2, e.t0, e.t1))
+    \cup FwdRetention(S, S2, e.t0, e.t1)
     \* C03: an acknowledgement is final for the sweep too - an acknowledged delivery is neither
     \* touched nor forwarded, however many attempts it had used and however old its deadline is
     \cup Chk("C03:sweep-touches-acknowledged", \A d \in S.acked : d \in Dels(S2) /\ SameDel(S, S2, d))
